@@ -13,6 +13,9 @@ conversions  RandomVariables.parameters_sdcorr, internals.math.cov2corr/corr2cov
              modeling.calculate_{se,corr,cov,prec}_from_* family against own formulas, pairwise
              inverse on PD matrices.
 ucp          calculate_parameters_from_ucp(M, calculate_ucp_scale(M), {p: 0.1}) == inits(M).
+joint_model  create_joint_distribution / split_joint_distribution on parsed NONMEM models whose etas may share a
+             statement: the reference model is compared after every step; every lower-triangle element of a joint
+             block is its own parameter of the model (n(n+1)/2 distinct names), blocks PSD, valid inits unaltered.
 
 Tolerances (stated): entries of symbolic tables are compared exactly; numeric comparisons use
 1e-9 relative to the magnitude of the matrix (max |entry|) unless said otherwise; the PSD
@@ -46,7 +49,11 @@ RULE = (
     'conversions: PD matrices n<=6 (margin >= 1e-3 relative); non-trivial = n>=3 with a joint block. '
     'ucp: models with 0-3 thetas (bounded/unbounded/fixed), 1-3 eta blocks and 1-2 epsilon blocks (sizes 1-3) whose '
     'inits are L L^T for generated lower triangular L; non-trivial = a non-fixed block whose Cholesky factor has a '
-    'non-zero off-diagonal element (class negative_cholesky_offdiag counts the negative ones). Distinct = (shape signature, resolved operation sequence) / hash of the spec.'
+    'non-zero off-diagonal element (class negative_cholesky_offdiag counts the negative ones). '
+    'joint_model: NM-TRAN models with 2-5 etas placed into 1-4 parameter statements P1..Pk (several etas may sit in '
+    'one statement, an eta may sit in two, or directly in Y), $OMEGA layout of single and BLOCK records, history of '
+    '<=3 create_joint_distribution(list | None) / split_joint_distribution steps; non-trivial = a create step that '
+    'joins etas used by the same statement(s). Distinct = (shape signature, resolved operation sequence) / hash of the spec.'
 )
 ASSUMPTIONS = [
     'numpy.linalg.eigh / eigvalsh / cholesky / inv are trusted for the reference computations',
@@ -1139,6 +1146,246 @@ def run_ucp(spec):
 
 
 # ------------------------------------------------------------------------------------------
+# sub-check 5: joint_model  (create_joint_distribution / split_joint_distribution on models)
+
+JM_ETA = st.fixed_dictionaries(dict(stmt=st.integers(0, 5), also=st.integers(0, 7), form=st.integers(0, 2), cut=st.integers(0, 2)))
+JM_OP = st.tuples(st.integers(0, 5), st.lists(st.integers(0, 9), min_size=2, max_size=5), st.booleans()).map(list)
+JM_SPEC = st.fixed_dictionaries(
+    dict(
+        etas=st.one_of(st.lists(JM_ETA, min_size=3, max_size=5), st.lists(JM_ETA, min_size=2, max_size=5)),
+        k=st.integers(1, 4),
+        ops=st.lists(JM_OP, min_size=1, max_size=3),
+        est=st.integers(0, 2),
+    )
+)
+
+
+def jm_layout(spec):
+    """-> (k, [(primary statement index or k for 'directly in Y', second statement or None, form)], block sizes)"""
+    etas = _get(spec, 'etas', [])
+    etas = [e for e in (etas if isinstance(etas, list) else [])][:5]
+    if len(etas) < 2:
+        raise Reject('fewer than two etas')
+    k = max(1, min(4, _int(_get(spec, 'k', 1))))
+    place = []
+    sizes = []
+    for i, e in enumerate(etas):
+        s_ = _int(_get(e, 'stmt', 0)) % (k + 1)
+        also = None
+        if s_ < k and k > 1 and _int(_get(e, 'also', 1)) % 4 == 0:
+            also = (s_ + 1) % k
+        place.append((s_, also, _int(_get(e, 'form', 0)) % 3))
+        if i == 0 or _int(_get(e, 'cut', 0)) % 3 != 2:
+            sizes.append(1)
+        else:
+            sizes[-1] += 1
+    return k, place, sizes
+
+
+def jm_code(spec):
+    k, place, sizes = jm_layout(spec)
+    lines = ['$PROBLEM c11', '$INPUT ID TIME DV', '$DATA c11.csv IGNORE=@', '$PRED']
+    for j in range(k):
+        mult = [f'ETA({i + 1})' for i, (s_, also, f) in enumerate(place) if (s_ == j or also == j) and f != 1]
+        addv = [f'ETA({i + 1})' for i, (s_, also, f) in enumerate(place) if (s_ == j or also == j) and f == 1]
+        rhs = f'THETA({j + 1})'
+        if mult:
+            rhs += '*EXP(' + '+'.join(mult) + ')'
+        if addv:
+            rhs += ' + ' + ' + '.join(addv)
+        lines.append(f'P{j + 1} = {rhs}')
+    direct = [f'ETA({i + 1})' for i, (s_, also, f) in enumerate(place) if s_ == k]
+    lines.append('Y = ' + ' + '.join([f'P{j + 1}' for j in range(k)] + direct) + ' + EPS(1)')
+    for j in range(k):
+        lines.append(f'$THETA (0,{j + 1}.5)')
+    i = 0
+    for n in sizes:
+        if n == 1:
+            lines.append(f'$OMEGA {0.1 * (i + 1):.2f}')
+        else:
+            lines.append(f'$OMEGA BLOCK({n})')
+            for r in range(n):
+                lines.append(' '.join(['0.01'] * r + [f'{0.1 * (i + r + 1):.2f}']))
+        i += n
+    lines.append('$SIGMA 0.5')
+    lines.append(['$ESTIMATION METHOD=1 INTER', '$ESTIMATION METHOD=0', '$ESTIMATION METHOD=IMP'][_int(_get(spec, 'est', 0)) % 3])
+    return '\n'.join(lines) + '\n'
+
+
+def ref_from_rvs(rvs):
+    ref = RefRVs()
+    for d in rvs:
+        names = list(d.names)
+        if len(names) == 1:
+            ref.add_block(names, d.level, {names[0]: from_expr(d.variance)}, {names[0]: from_expr(d.mean)}, {})
+        else:
+            V, M = d.variance, d.mean
+            var = {n: from_expr(V[i, i]) for i, n in enumerate(names)}
+            mean = {n: from_expr(M[i, 0]) for i, n in enumerate(names)}
+            cov = {frozenset((a, c)): from_expr(V[i, j]) for i, a in enumerate(names) for j, c in enumerate(names) if j < i}
+            ref.add_block(names, d.level, var, mean, cov)
+    return ref
+
+
+def run_joint_model(spec, _collect=None):
+    from pharmpy.model import Model
+    from pharmpy.modeling import create_joint_distribution, split_joint_distribution
+
+    code = jm_code(spec)
+    k, place, sizes = jm_layout(spec)
+    model = guard(Model.parse_model_from_string, code, allowed=(), clause='parse')
+    rvs = model.random_variables
+    ref = ref_from_rvs(rvs)
+    verify(rvs, ref, 'parse')
+    etas = [n for b in ref.blocks if b.level == 'IIV' for n in b.names]
+    if len(etas) != len(place):
+        raise HarnessError(f'generated {len(place)} etas, parsed {etas}\n{code}')
+    # which etas share a defining statement (the parameter names are derived from the statements)
+    owners = [tuple(sorted({x for x in (s_, also) if x is not None})) for (s_, also, f) in place]
+    share = len(set(owners)) < len(owners)
+    classes = {f'etas={len(etas)}', 'blocks=' + '+'.join(map(str, sizes))}
+    if any(also is not None for (_, also, _) in place):
+        classes.add('eta_in_two_statements')
+    if any(s_ == k for (s_, _, _) in place):
+        classes.add('eta_directly_in_Y')
+    ops = _get(spec, 'ops', [])
+    trace = []
+    soft = None
+    evals = 1
+    nontrivial = False
+    for op in (ops if isinstance(ops, list) else [])[:3]:
+        op = (list(op) if isinstance(op, list) else [op]) + [0, 0, 0]
+        kind, sel, flag = _int(op[0]) % 6, _ilist(op[1]) or [0, 1], bool(_int(op[2]))
+        names = ref.names()
+        iiv = [n for n in names if ref.level_of(n) == 'IIV']
+        prev = ref.copy()
+        prev_blocks = prev.block_tuples()
+        prev_inits = dict(model.parameters.inits)
+        chosen = []
+        for x in sel[:5]:
+            n = iiv[x % len(iiv)]
+            if n not in chosen:
+                chosen.append(n)
+        if kind <= 3:  # ------------------------------------------------------ create_joint_distribution
+            if kind == 3:
+                J, arg = list(iiv), None
+            else:
+                if len(chosen) < 2:
+                    continue
+                J = [n for n in names if n in chosen]  # collection order (parameter names follow the argument order)
+                arg = list(J)
+            step = 'create_joint'
+            trace.append(f'create_joint_distribution({arg})')
+            sharing = len({owners[etas.index(n)] for n in J}) < len(J)
+            if sharing and _collect is not None:
+                _collect.append('sharing')
+            if _collect is not None and any(owners[etas.index(n)] == owners[i] for n in J for i in range(len(etas)) if etas[i] != n):
+                _collect.append('sharing-any')
+            ref.join(J, lambda c, r: ('new', f'{c}|{r}'))
+            new_model = guard(create_joint_distribution, model, arg, individual_estimates=None, allowed=(), clause=step)
+            if sharing:
+                classes.add('joined_etas_share_statement')
+                nontrivial = True
+        else:  # --------------------------------------------------------------- split_joint_distribution
+            U = chosen[: 1 + (len(sel) % 2)] if not flag else chosen
+            if not any(len(b.names) > 1 and set(b.names) & set(U) for b in ref.blocks):
+                continue
+            step = 'split_joint'
+            trace.append(f'split_joint_distribution({U})')
+            ref.unjoin(U)
+            new_model = guard(split_joint_distribution, model, list(U), allowed=(), clause=step)
+            classes.add('split')
+        new_rvs = new_model.random_variables
+        detail = f'history={trace}; code={code!r}'
+        actual = [tuple(d.names) for d in new_rvs]
+        emu = rvref.check_order(prev_blocks, ref.block_tuples(), ref.block_tuples())
+        if emu is not None and emu[0] == 'needless-change' and _collect is not None:
+            _collect.append('needless')
+        res = rvref.check_order(prev_blocks, ref.block_tuples(), actual)
+        if res is not None:
+            if res[0] == 'needless-change':
+                if soft is None:
+                    soft = Violation(f'order:needless-change:{step}', observed=actual, expected=[n for t in prev_blocks for n in t], detail=res[1] + '; ' + detail)
+            else:
+                raise Violation(f'{step}:{"blocks" if res[0] == "partition" else "order:" + res[0]}', observed=actual, expected=ref.block_tuples(), detail=res[1] + '; ' + detail)
+        ref.adopt_order(actual)
+        # bind the newly created covariance parameters: each must be a symbol, a parameter of the model, and unique
+        pnames = set(new_model.parameters.names)
+        for d in new_rvs:
+            nm = list(d.names)
+            if len(nm) < 2:
+                continue
+            V = d.variance
+            lower = {}
+            for i, a in enumerate(nm):
+                for j, c in enumerate(nm[: i + 1]):
+                    got = from_expr(V[i, j])
+                    key = frozenset((a, c))
+                    if i != j and ref.cov.get(key, ('n', 0.0))[0] == 'new':
+                        if got[0] != 's':
+                            raise Violation(f'{step}:new-covariance-not-a-parameter', observed=got, expected='a symbol', detail=f'({a},{c}); ' + detail)
+                        ref.cov[key] = got
+                    if got[0] == 's':
+                        if got[1] in lower:
+                            raise Violation(
+                                f'{step}:one-parameter-for-two-elements', observed=[str(V[r, q]) for r in range(len(nm)) for q in range(r + 1)],
+                                expected=f'{len(nm) * (len(nm) + 1) // 2} distinct parameters in the block of {nm}',
+                                detail=f'{got[1]} is element ({a},{c}) and element {lower[got[1]]}; etas share a statement: {share}; ' + detail,
+                            )
+                        lower[got[1]] = (a, c)
+        verify(new_rvs, ref, step)
+        missing = sorted(set(new_rvs.parameter_names) - pnames)
+        if missing:
+            raise Violation(f'{step}:parameter-without-initial-estimate', observed=missing, detail=detail)
+        inits = new_model.parameters.inits
+        for d in new_rvs:
+            if len(d.names) < 2:
+                continue
+            A = np.array(d.variance.subs(inits).to_numpy(), dtype=float)
+            if rvref.eig_min(A) < -1e-10 * rvref.fro(A):
+                raise Violation(f'{step}:block-not-psd', observed=A.tolist(), detail=detail)
+            if rvref.classify(A) == 'pd':
+                for r in range(A.shape[0]):
+                    for q in range(r + 1):
+                        e = from_expr(d.variance[r, q])
+                        if e[0] == 's' and e[1] in prev_inits and inits[e[1]] != prev_inits[e[1]]:
+                            raise Violation(f'{step}:valid-initial-estimate-altered', observed=inits[e[1]], expected=prev_inits[e[1]], detail=e[1] + '; ' + detail)
+        model = new_model
+        evals += 1
+    if soft is not None:
+        raise soft
+    if share:
+        classes.add('etas_share_statement')
+    return CaseInfo(nontrivial=nontrivial, classes=tuple(sorted(classes)), key='|'.join(map(str, owners)) + '>' + ';'.join(trace) + '>' + '+'.join(map(str, sizes)), render=dict(code=code.splitlines(), history=trace, end=render_state(ref)), evals=evals)
+
+
+def _jm_flags(spec):
+    seen = []
+    try:
+        run_joint_model(spec, _collect=seen)
+    except (Violation, Reject):
+        pass
+    return seen
+
+
+def pred_jm_needless_reorder(spec):
+    """alias of rv_needless_reorder_only for the model-level sub-check (decided on the reference model)"""
+    return 'needless' in _jm_flags(spec)
+
+
+def pred_jm_joined_share_statement(spec):
+    """Known-finding predicate: the history contains a create_joint_distribution step joining two etas that are
+    used by exactly the same statement(s) (decided from the generated layout and the resolved operation)."""
+    return 'sharing' in _jm_flags(spec)
+
+
+def pred_jm_joined_shares_with_any(spec):
+    """Known-finding predicate: a create_joint_distribution step joins an eta that is used by exactly the same
+    statement(s) as another eta of the model (joined or not)."""
+    return 'sharing-any' in _jm_flags(spec)
+
+
+# ------------------------------------------------------------------------------------------
 
 
 def selfcheck():
@@ -1200,6 +1447,9 @@ KNOWN_PREDICATES = {
     'rv_needless_reorder_only': pred_needless_reorder,
     'rv_zero_numeric_variance': pred_zero_numeric_variance,
     'psd_single_normal': pred_single_normal,
+    'jm_needless_reorder_only': pred_jm_needless_reorder,
+    'jm_etas_share_statement': pred_jm_joined_share_statement,
+    'jm_eta_shares_statement_with_any': pred_jm_joined_shares_with_any,
 }
 
 SUBCHECKS = [
@@ -1207,4 +1457,5 @@ SUBCHECKS = [
     SubCheck('psd_repair', lambda: PSD_SPEC, run_psd_repair, quick=2000, thorough=20800),
     SubCheck('conversions', lambda: CONV_SPEC, run_conversions, quick=1000, thorough=10400),
     SubCheck('ucp', lambda: UCP_SPEC, run_ucp, quick=1400, thorough=14560),
+    SubCheck('joint_model', lambda: JM_SPEC, run_joint_model, quick=640, thorough=6400),
 ]
